@@ -149,7 +149,7 @@ for rel in FILES:
             if 'error' in out:
                 verdict = 'NOCOMPILE'
             else:
-                rc, out = sh('timeout -k 10 400 cargo test --workspace --offline -j6 2>&1 | grep -E "^test result|error(\\[|:)|FAILED|panicked" | head -20', cwd=W, timeout=1500)
+                rc, out = sh('timeout -k 10 150 cargo test --workspace --offline -j6 2>&1 | grep -E "^test result|error(\\[|:)|FAILED|panicked" | head -20', cwd=W, timeout=1500)
                 # NB "test result: ok. 421 passed; 0 failed; ..." contains the word `failed`: only a non-zero count is a failure
                 if rc == 124 or 'FAILED' in out or 'error' in out or 'panicked' in out or re.search(r'\b[1-9]\d* failed', out) or out.count('test result') < 9:   # 9 = number of test binaries + doc-test runs on the unchanged tree
                     verdict = 'NOCOMPILE (test build)' if 'error[E' in out else 'KILLED-BY-TESTS'
